@@ -173,6 +173,13 @@ class AwaitableItem:
         raise AwaitedDataError(self.uid)
         yield  # pragma: no cover
 
+    # handles can be combined (a symbolic / deferred sum): the result is another handle - data, like its operands
+    def __add__(self, other):
+        return AwaitableItem(("+", self.uid, getattr(other, "uid", other)))
+
+    def __radd__(self, other):
+        return AwaitableItem(("+", getattr(other, "uid", other), self.uid))
+
 
 class EqAll:
     """["E", uid]: an object that claims to be equal to everything (like unittest.mock.ANY or a null object
